@@ -1112,6 +1112,7 @@ func (x *Exec) verifyContract(ct *Contract) (err error) {
 	x.unrolled = 0
 	x.instKeys = nil
 	x.mergeIf = ct.opts["split"] == ""
+	x.prune = ct.opts["prune"] != ""
 	x.mergeCallMax = 4
 	if v, ok := ct.opts["mergecall"]; ok {
 		fmt.Sscanf(v, "%d", &x.mergeCallMax)
